@@ -1,10 +1,13 @@
 """Run plan of C18 for vf.py: hash set/map vs. reference container (sequential differential model)."""
-from checks_common import three
+from checks_common import ASAN, PLAIN
 
 CHECK = {
     # purely sequential property: TSan has nothing to watch (scale 0 drops the variant);
     # asan (+ubsan, asserts on) for lifetime errors in merge/rehash/copy, plain (-O2 -DNDEBUG) for volume.
-    "runs": three("c18_hashmodel", scales=(0, 1.0, 3.0)),
+    "runs": [
+        {"harness": "c18_hashmodel", "variant": ASAN, "scale_quick": 0.2, "scale_thorough": 0.1, "args": []},
+        {"harness": "c18_hashmodel", "variant": PLAIN, "scale_quick": 3.0, "scale_thorough": 1.0, "args": []},
+    ],
     "design_ref": "DESIGN.md §5 C18",
     "technique": "seeded random operation sequences on ConcurrentTransientHashSet/Map and ConcurrentFixedSwissTable "
                  "with std::unordered_map as reference model; full comparison after every operation",
